@@ -32,6 +32,7 @@ type Engine struct {
 	recCache  map[*ssa.Function]bool
 	ifaceImpl map[string]*ssa.Function
 	modsCache map[*ssa.Function]modsEntry
+	vrCache   map[string][]types.Type
 	hooks     Hooks
 }
 
@@ -334,6 +335,9 @@ type Job struct {
 	CheckPost    bool
 	IsRoot       func(fn *ssa.Function) bool
 	TypeInv      bool
+	NoUserInv    bool
+	NoContracts  bool
+	Prop         string
 	LockMode     bool
 }
 
@@ -342,7 +346,7 @@ func (e *Engine) translate(job *Job) *Tr {
 	fn := job.Fn
 	tr := &Tr{eng: e, root: fn, comps: map[string]*Component{}, oblCount: map[string]int{}, panicMode: job.PanicMode, frameMode: job.Frame,
 		initHeap: map[string]*HeapV{}, usedStubs: map[string]bool{}, inlined: map[string]bool{}, havocked: map[string]bool{},
-		declared: map[string]bool{}, unfolded: map[string]bool{}, usedContracts: map[string]bool{}, usedAssumed: map[string]bool{}, atDone: map[string]bool{}, clauseFilter: job.ClauseFilter, isRoot: job.IsRoot, typeInvMode: job.TypeInv, lockMode: job.LockMode}
+		declared: map[string]bool{}, unfolded: map[string]bool{}, usedContracts: map[string]bool{}, usedAssumed: map[string]bool{}, atDone: map[string]bool{}, clauseFilter: job.ClauseFilter, isRoot: job.IsRoot, typeInvMode: job.TypeInv, lockMode: job.LockMode, prop: job.Prop, noUserInv: job.NoUserInv, noContracts: job.NoContracts}
 	tr.inlineBudget = 200 - 2*len(fn.Blocks)
 	if tr.inlineBudget < 0 {
 		tr.inlineBudget = 0
@@ -352,7 +356,7 @@ func (e *Engine) translate(job *Job) *Tr {
 	a := tr.newAct(fn, nil)
 	tr.rootAct = a
 	tr.contract = a.contract
-	st := &State{reach: "true", heap: map[string]*HeapV{}, alloc: tr.alloc0, defers: map[*ssa.Defer]Term{}, owned: map[string]ownedCell{}}
+	st := &State{reach: "true", heap: map[string]*HeapV{}, alloc: tr.alloc0, defers: map[*ssa.Defer]Term{}, owned: map[string]ownedCell{}, esc: map[string]escRec{}}
 	// parameters: arbitrary values that exist at entry
 	args := make([]Term, len(fn.Params))
 	var paramInv []func()
@@ -399,7 +403,7 @@ func (tr *Tr) assumePreExisting(st *State, t types.Type, x Term) {
 			tr.assumePreExisting(st, u.Field(i).Type(), app(si.fields[i], x))
 		}
 	case *types.Interface:
-		// containers inside interface values: constrained where they are projected (assumeLoadedPreExisting)
+		tr.assume(app("idsOK", x, tr.alloc0), "containers inside a parameter exist at entry")
 	}
 }
 
@@ -428,4 +432,44 @@ func (e *Engine) bareTr() *Tr {
 	a.entryState = &State{reach: "true", heap: map[string]*HeapV{}, alloc: tr.alloc0, defers: map[*ssa.Defer]Term{}, owned: map[string]ownedCell{}}
 	tr.rootAct = a
 	return tr
+}
+
+// valueRecvPtrTypes: pointer types *T of module types T that declare method name with a value
+// receiver (calling it through a nil *T stored in an interface dereferences nil).
+func (e *Engine) valueRecvPtrTypes(name string) []types.Type {
+	if e.vrCache == nil {
+		e.vrCache = map[string][]types.Type{}
+	}
+	if r, ok := e.vrCache[name]; ok {
+		return r
+	}
+	var out []types.Type
+	var pkgs []*ssa.Package
+	for _, p := range e.prog.AllPackages() {
+		if strings.HasPrefix(p.Pkg.Path(), modulePath) {
+			pkgs = append(pkgs, p)
+		}
+	}
+	sort.Slice(pkgs, func(i, j int) bool { return pkgs[i].Pkg.Path() < pkgs[j].Pkg.Path() })
+	for _, p := range pkgs {
+		var names []string
+		for n := range p.Members {
+			names = append(names, n)
+		}
+		sort.Strings(names)
+		for _, n := range names {
+			tn, ok := p.Members[n].(*ssa.Type)
+			if !ok || isInterface(tn.Type()) {
+				continue
+			}
+			ms := types.NewMethodSet(tn.Type())
+			for i := 0; i < ms.Len(); i++ {
+				if ms.At(i).Obj().Name() == name {
+					out = append(out, types.NewPointer(tn.Type()))
+				}
+			}
+		}
+	}
+	e.vrCache[name] = out
+	return out
 }
